@@ -392,6 +392,10 @@ func (re *Regexp) findAllRunesIndex(runner *Runner, input []rune, startAt, n int
 		startAt = m.textpos
 		previousMatchLength = m.RuneLength
 	}
+	if len(out) == 0 {
+		// no match is nil whatever n was (out may have been pre-allocated)
+		return nil, nil
+	}
 	return out, nil
 }
 
